@@ -30,6 +30,7 @@ import SwcVerif.Model.AlgoRunRedirect
 import SwcVerif.Model.AlgoRunAffine
 import SwcVerif.Model.AlgoRunRodrigues
 import SwcVerif.Model.AlgoRunViews
+import SwcVerif.Model.AlgoRunHelpers
 import SwcVerif.Model.AlgoRunCat
 import SwcVerif.Model.AlgoRunAssemble
 import SwcVerif.Model.AlgoRunLMeasure
@@ -112,6 +113,7 @@ def dispatch (op : String) (args : List String) : String :=
   | "grod" | "ghom" | "gmview" | "gortho" => AlgoRun.handleRodrigues op args
   | "gviews" => AlgoRun.handleViews args
   | "gslice" => AlgoRun.handleSlice args
+  | "ghelpers" => AlgoRun.handleHelpers args
   | "gcat" => AlgoRun.handleCat args
   | "glm" => AlgoRun.handleLm args
   | "glmgeo" => AlgoRun.handleLmGeo args
